@@ -21,7 +21,8 @@ import (
 //
 //	["req", at, t]          ScheduleWakeAt(t) called from outside the processor at engine time at
 //	["notify_recv", at, at] NotifyRecv at engine time at      (likewise notify_free)
-//	["run", at, 0]          the processor was invoked with time at
+//	["run", at, idle]       the processor was invoked with time at; idle = 1 if this run then reported "no progress"
+//	                        (Process returned false; the script of the history says what each run reports)
 //	["inreq", at, t]        ScheduleWakeAt(t) called by the processor during the run at time at
 //	["in_notify_recv", at, at]  NotifyRecv reached the component WHILE its processor was running at time at
 //	                        (likewise in_notify_free)
@@ -69,6 +70,8 @@ type edRun struct {
 	mu     sync.Mutex
 	log    edLog
 	script [][]int // what happens during a processor run (request deltas, notification codes), one entry per invocation
+	idles  []bool  // what that run reports afterwards (true = no progress); same indexing as script
+	tail   bool    // what runs beyond the script report (true = no progress)
 	notify string
 	port   messaging.Port
 	msgID  uint64
@@ -117,11 +120,22 @@ func (r *edRun) raise(recv bool) {
 
 // Process implements modeling.EventProcessor.
 func (r *edRun) Process(comp *edComp, now timing.VTimeInPicoSec) bool {
-	r.add("run", now, 0)
+	idle := r.tail
+	if len(r.script) > 0 && len(r.idles) > 0 {
+		idle = r.idles[0]
+	}
+	if idle {
+		r.add("run", now, 1)
+	} else {
+		r.add("run", now, 0)
+	}
 	comp.State.Runs++
 	if len(r.script) > 0 {
 		ds := r.script[0]
 		r.script = r.script[1:]
+		if len(r.idles) > 0 {
+			r.idles = r.idles[1:]
+		}
 		for _, d := range ds {
 			switch d {
 			case codeNotifyRecv, codeNotifyFree:
@@ -145,8 +159,10 @@ func (r *edRun) Process(comp *edComp, now timing.VTimeInPicoSec) bool {
 			}
 		}
 	}
-	return true
+	return !idle
 }
+
+func isTrue(v any) bool { b, _ := v.(bool); return b }
 
 // external operation at the current engine time
 func (r *edRun) ext(op string, d int) {
@@ -202,7 +218,7 @@ func newEdRun(engine timing.Engine, notify string) *edRun {
 	return r
 }
 
-func edReplay(mode, notify string, h replay.History) (log edLog, errText string) {
+func edReplay(mode, notify string, tailIdle bool, h replay.History) (log edLog, errText string) {
 	defer func() {
 		if p := recover(); p != nil {
 			errText = fmt.Sprintf("panic: %v", p)
@@ -211,6 +227,7 @@ func edReplay(mode, notify string, h replay.History) (log edLog, errText string)
 	timing.ResetIDGenerator()
 	eng := timing.NewSerialEngine()
 	r := newEdRun(eng, notify)
+	r.tail = tailIdle
 	isExt := func(op string) bool { return op == "req" || op == "notify_recv" || op == "notify_free" }
 	switch mode {
 	case "outside":
@@ -236,6 +253,7 @@ func edReplay(mode, notify string, h replay.History) (log edLog, errText string)
 				to := r.engine.CurrentTime()
 				for ; i < len(steps) && replay.Str(steps[i].A["op"]) == "dispatch"; i++ {
 					r.script = append(r.script, replay.Ints(steps[i].A["reqs"]))
+					r.idles = append(r.idles, isTrue(steps[i].A["idle"]))
 					if at := timing.VTimeInPicoSec(replay.Num(steps[i].A["at"])); at > to {
 						to = at
 					}
@@ -267,6 +285,7 @@ func edReplay(mode, notify string, h replay.History) (log edLog, errText string)
 		for _, st := range h.Steps {
 			if replay.Str(st.A["op"]) == "dispatch" {
 				r.script = append(r.script, replay.Ints(st.A["reqs"]))
+				r.idles = append(r.idles, isTrue(st.A["idle"]))
 			}
 		}
 		eh.next(0)
@@ -294,7 +313,7 @@ func eventDrivenDriver(raw json.RawMessage) (any, error) {
 	logs := make([]edLog, len(in.Histories))
 	errs := make([]string, len(in.Histories))
 	for i, h := range in.Histories {
-		logs[i], errs[i] = edReplay(mode, notify, h)
+		logs[i], errs[i] = edReplay(mode, notify, isTrue(in.Config["tail_idle"]), h)
 	}
 	return map[string]any{"logs": logs, "errors": errs}, nil
 }
@@ -309,9 +328,12 @@ func eventDrivenDriver(raw json.RawMessage) (any, error) {
 // the script like in the serial replay.
 type parScenario struct {
 	T      int     `json:"t"`
-	Notes  []int   `json:"notes"`  // codes 100 / 101 delivered by the env handler during the first run
-	Script [][]int `json:"script"` // in-run operations of the processor runs
-	Notify string  `json:"notify"` // direct | port
+	Notes  []int   `json:"notes"`      // codes 100 / 101 delivered by the env handler during the first run
+	Script [][]int `json:"script"`     // in-run operations of the processor runs after the first
+	Idles  []bool  `json:"idles"`      // what those runs report (true = no progress)
+	First  bool    `json:"first_idle"` // what the first (overlapped) run reports
+	Tail   bool    `json:"tail_idle"`  // what runs beyond the script report
+	Notify string  `json:"notify"`     // direct | port
 }
 
 type parEnv struct {
@@ -350,14 +372,18 @@ type parProc struct {
 func (p *parProc) Process(comp *edComp, now timing.VTimeInPicoSec) bool {
 	if !p.first {
 		p.first = true
-		p.r.add("run", now, 0)
+		if p.env.sc.First {
+			p.r.add("run", now, 1)
+		} else {
+			p.r.add("run", now, 0)
+		}
 		comp.State.Runs++
 		close(p.env.parked)
 		select {
 		case <-p.env.done:
 		case <-time.After(4 * time.Second):
 		}
-		return true
+		return !p.env.sc.First
 	}
 	return p.r.Process(comp, now)
 }
@@ -370,7 +396,7 @@ func edParallel(sc parScenario) (log edLog, overlap bool, errText string) {
 	}()
 	timing.ResetIDGenerator()
 	eng := timing.NewParallelEngine()
-	r := &edRun{engine: eng, notify: sc.Notify, script: sc.Script}
+	r := &edRun{engine: eng, notify: sc.Notify, script: sc.Script, idles: sc.Idles, tail: sc.Tail}
 	env := &parEnv{r: r, sc: sc, parked: make(chan struct{}), done: make(chan struct{})}
 	proc := &parProc{r: r, env: env}
 	r.comp = modeling.NewEventDrivenBuilder[edSpec, edState, modeling.None]().
